@@ -291,9 +291,14 @@ def g_item(rng, depth, ctx):
     if k == 8:
         brk = rng.choice(["{% break %}", "{% continue %}"]) if ctx.loop and rng.random() < 0.3 else ""
         return "{%% apply %s %%}%s%s{%% end %%}" % (rng.choice(FNS), g_items(rng, d, ctx.but(loop=False)), brk)
-    if ctx.blocks:
+    if ctx.blocks and rng.random() < 0.6:
         return "{%% block %s %%}%s{%% end %%}" % (rng.choice(ctx.blocks), g_items(rng, d, ctx))
-    return g_textbit(rng)
+    # a {% whitespace %} directive inside a nested body, whitespace-rich literal text after the body's end
+    opener = rng.choice(["{% if t %}", "{% if f %}", "{% for x in xs %}", "{% try %}", "{% apply wrap %}", "{% if t %}{% if t %}"])
+    closer = "{% end %}" * opener.count("{% ") if "try" not in opener else "{% finally %}{% end %}"
+    ws = lambda: rng.choice(["  a \n\n b\t\tc ", " x  y ", "\n \n", " p\t \n q  ", "  "])
+    return "%s%s{%% whitespace %s %%}%s%s%s%s" % (opener, rng.choice(["", ws()]), rng.choice(["all", "single", "oneline"]),
+                                                 ws(), closer, ws(), g_items(rng, d, ctx, 0, 2))
 
 
 JUNK = ["{{", "{%", "{#", "}}", "%}", "#}", "{% end %}", "{% else %}", "{% elif t %}", "{% break %}", "!", "{", "\n", "{% bogus %}",
@@ -489,7 +494,7 @@ def corpus_cases():
 
 def gen_cases(rng, tier):
     out = []
-    n1, n2, n3 = (260, 120, 140) if tier == "quick" else (1200, 500, 700)
+    n1, n2, n3 = (260, 120, 140) if tier == "quick" else (600, 300, 350)
     for i in range(n1):
         out.append(g_single(rng, rng.choice([1, 2, 2, 3, 4]), safe=(i % 3 == 0)))
     for _ in range(n2):
@@ -501,7 +506,7 @@ def gen_cases(rng, tier):
     if tier == "quick":
         out += g_exhaustive(2, TOKENS)
     else:
-        out += g_exhaustive(3, TOKENS)
+        out += g_exhaustive(3, [t for t in TOKENS if t not in ("\n", "{# #}", "!")])   # 12 tokens: 1884 sequences
     keep = []
     for c in out:
         if len(c["root"]["src"]) > 400 or not in_pool(c):
@@ -514,6 +519,76 @@ def gen_cases(rng, tier):
             continue
         keep.append(c)
     return keep
+
+
+# ---------------------------------------------------------------- independent oracle: literal text and whitespace scoping
+def _fw(mode, text):
+    """filter_whitespace as documented (own copy, not tornado's)"""
+    if mode == "all":
+        return text
+    if mode == "single":
+        text = re.sub(r"([\t ]+)", " ", text)
+        return re.sub(r"(\s*\n\s*)", "\n", text)
+    if mode == "oneline":
+        return re.sub(r"(\s+)", " ", text)
+    raise ValueError(mode)
+
+
+def flat_chunks(src, mode):
+    """Literal text chunks of a template in document order with the whitespace mode in force, computed WITHOUT
+    any nesting: a {% whitespace %} directive applies to all following text of the file, wherever it stands."""
+    out, ops, pos, n = [], [], 0, len(src)
+    while True:
+        curly = pos
+        while True:
+            curly = src.find("{", curly)
+            if curly == -1 or curly + 1 == n:
+                out.append((src[pos:], mode))
+                return out, ops
+            if src[curly + 1] not in "{%#":
+                curly += 1
+                continue
+            if curly + 2 < n and src[curly + 1] == "{" and src[curly + 2] == "{":
+                curly += 1
+                continue
+            break
+        if curly > pos:
+            out.append((src[pos:curly], mode))
+        brace, pos = src[curly:curly + 2], curly + 2
+        if pos < n and src[pos] == "!":
+            pos += 1
+            out.append((brace, mode))
+            continue
+        end = src.find({"{#": "#}", "{{": "}}", "{%": "%}"}[brace], pos)
+        if end == -1:
+            return None, ops
+        contents, pos = src[pos:end].strip(), end + 2
+        if brace == "{%":
+            op, _, suffix = contents.partition(" ")
+            ops.append(op)
+            if op == "whitespace":
+                mode = suffix.strip()
+
+
+def py_check(case, o):
+    """Literal text is reproduced apart from the selected whitespace filtering, and a whitespace directive governs
+    all text after it in the file: the byte literals appended by the generated code, in order, are the filtered
+    flat chunks of the source (templates without block / include / extends, which reorder or import text)."""
+    if not (isinstance(o, list) and len(o) == 3 and o[0] == "ok"):
+        return True
+    L, R = case["ldr"], case["root"]
+    mode = R["ws"] or ((L["ws"] or None) if L["use"] else None) or ("single" if R["name"].endswith((".html", ".js")) else "all")
+    chunks, ops = flat_chunks(R["src"], mode)
+    if chunks is None or set(ops) & {"block", "include", "extends"}:
+        return True
+    want = []
+    for text, m in chunks:
+        v = text if "<pre>" in text else _fw(m, text)
+        if v:
+            want.append(v.encode("utf-8"))
+    import ast
+    got = [ast.literal_eval(line[1][len("_tt_append("):-1]) for line in o[1] if line[1].startswith(("_tt_append(b'", '_tt_append(b"'))]
+    return got == want
 
 
 # ---------------------------------------------------------------- metadata
@@ -569,7 +644,7 @@ ASSUMPTIONS = ["template sources are str without newline inside a block tag's st
                "loader file names are simple (no directory part), not starting with '<' or '/'"]
 RULE = ("random templates from the directive grammar (depth <= 4, literal text rich in quotes, backslashes, braces, <pre>, Unicode spaces, "
         "non-ASCII), multi-file loaders with extends/include/block chains and per-file autoescape directives, a mutated (malformed) stream, "
-        "and all token sequences up to length 2 (quick) / 3 (thorough) over a 15-token alphabet; distinct by (root source, files, autoescape settings)")
+        "and all token sequences up to length 2 over a 15-token alphabet (quick) / up to length 3 over 12 of them (thorough); distinct by (root source, files, autoescape settings)")
 LEVEL_TEXT = ("Machine-checked (Coq): _parse transliterated, every _Node.generate / _CodeWriter as structured lines, inheritance/blocks/includes, "
               "read-back of the emitted lines by indentation, a big-step semantics of the emitted statement forms and a direct interpreter of the resolved "
               "template. Proved for all templates over the identifier pool (text, expressions, raw, set, if/elif/else, for, while, break/continue, "
